@@ -298,6 +298,45 @@ def main():
                 f.write(json.dumps({'id': shard + n * nshards, 'cls': 'mx-' + name, 'cfg': {'lmtp': False, 'pipelining': True, 'kind': 'smtp', 'deadline': 0,
                                     'stages': ['dns'] + sorted(script)}, 'ev': ev}, separators=(',', ':')) + '\n')
                 n += 1
+    # the resolver fails for a domain and answers the next time the same relay object is asked: the second attempt is judged by
+    # the second answer (a failed lookup leaves nothing behind)
+    for first, second in (('error_mx', 'mx1'), ('error_a', 'a_only'), ('error_mx', 'mx3'), ('error_mx', 'error_mx'), ('error_a', 'nothing'),
+                          ('nothing', 'mx1')):
+        idx += 1
+        if idx % nshards != shard:
+            continue
+        box = [dns_cases[first][0]]
+        answers, hosts = dns_cases[second]
+        r = rdrv.RelayRun(False, True, [{}])
+        chosen = []
+
+        def creator(address, r=r, chosen=chosen):
+            chosen.append(address[0])
+            return r.creator(address)
+
+        class StubResolver(object):
+            @classmethod
+            def query(cls, qname, qtype, box=box):
+                return Ans(box[0][qtype])
+        mxmod.DNSResolver = StubResolver
+        relay = mxmod.MxSmtpRelay(socket_creator=creator, ehlo_as='relay.example', connect_timeout=5, command_timeout=10, data_timeout=25)
+        env0 = Envelope('s@x', ['first@b.example'])
+        env0.parse(b'Subject: t\r\n\r\nbody\r\n')
+        try:
+            relay.attempt(env0, 0)
+        except RelayError:
+            pass
+        box[0] = answers
+        r.relay = relay
+        r.log(t='peer', stage='dns', i=0, act='code' if hosts != 'err' else 'disconnect',
+              code=250 if isinstance(hosts, list) else (550 if hosts is None else 0), conn=0, trans=0)
+        r.attempt(1, 1)
+        ev = r.run_to_end()
+        stats['executions'] += 1
+        f.write(json.dumps({'id': shard + n * nshards, 'cls': 'mx-again-%s-%s' % (first, second),
+                            'cfg': {'lmtp': False, 'pipelining': True, 'kind': 'smtp', 'deadline': 0, 'stages': ['dns']}, 'ev': ev},
+                           separators=(',', ':')) + '\n')
+        n += 1
     # recipient without a domain: permanent
     if shard == 2:
         from slimta.envelope import Envelope as _E
